@@ -122,6 +122,12 @@ func renderD(v ssa.Value, d int) string {
 		}
 		return x.Op.String() + renderD(x.X, d+1)
 	case *ssa.BinOp:
+		// a loop counter and its increment render alike, so that `for i := range` and `for i := 0; i < n; i++` give the same key
+		if _, isPhi := x.X.(*ssa.Phi); isPhi && x.Op == token.ADD {
+			if _, isK := constInt(x.Y); isK {
+				return "φ"
+			}
+		}
 		return "(" + renderD(x.X, d+1) + x.Op.String() + renderD(x.Y, d+1) + ")"
 	case *ssa.Call:
 		n := calleeName(&x.Call)
